@@ -262,7 +262,7 @@ def random_fault(rng, data, kind, raw_offsets=None):
         return {"kind": kind, "off": off, "bit": rng.randrange(8)}
     if kind == "char_sub":
         return {"kind": kind, "off": rng.randrange(max(1, n)),
-                "byte": rng.choice([0, 9, 10, 32, 45, 46, 48, 57, 65, 101, 127, 128, 195, 255])}
+                "byte": rng.choice([0, 9, 10, 32, 45, 46, 48, 57, 65, 101, 127, 128, 195, 255, 0x7B, 0x7D, 0x25, 0x5C, 0x22, 0x27])}
     if kind == "sep_insert":
         return {"kind": kind, "off": rng.randrange(max(1, n)), "sep": rng.choice(SEPARATORS), "replace": rng.random() < 0.5}
     if kind == "int_nudge":
